@@ -456,6 +456,10 @@ impl Writer {
     ) -> Result<KeyDirEntry, Error> {
         // Append log entry
         let datafile_entry = DataFileEntry { tstamp, key, value };
+        // An operation that fails after its entry reached the file leaves that entry unaccounted.
+        // The file must still be known to the merge, which has to take every file older than a
+        // merged one, otherwise a later tombstone for the same key could be dropped without it.
+        self.ctx.stats.entry(self.active_fileid).or_default();
         let index = match self.writer.append(&datafile_entry) {
             Ok(index) => index,
             Err(e) => {
